@@ -1138,11 +1138,11 @@ class MPO(MPSGeometry):
 
         """
         if self.finite:
-            return self.expectation_value_finite(psi, **init_env_data)
+            return self.expectation_value_finite(psi, init_env_data=init_env_data)
         elif self.max_range is None or self.max_range > 10 * self.L:
-            return self.expectation_value_TM(psi, tol=tol, **init_env_data)
+            return self.expectation_value_TM(psi, tol=tol, init_env_data=init_env_data)
         else:
-            return self.expectation_value_power(psi, tol=tol, max_range=max_range, **init_env_data)
+            return self.expectation_value_power(psi, tol=tol, max_range=max_range)
 
     def expectation_value_finite(self, psi, init_env_data={}):
         """Calculate ``<psi|self|psi>/<psi|psi>`` for finite MPS.
@@ -1163,7 +1163,7 @@ class MPO(MPSGeometry):
         """
         if psi.bc == 'segment':
             if len(init_env_data) == 0:
-                init_env_data['start_env_sites'] = 0
+                init_env_data = {'start_env_sites': 0}  # don't modify the (default) argument
                 warnings.warn(
                     'MPO.expectation_value(psi) with segment psi needs environments! '
                     'Can only estimate value completely ignoring contributions '
